@@ -92,3 +92,22 @@ def srv_rx(journal, c=None, conn=None, elements_only=True):
 
 def signals(journal, name=None, c=None):
     return [e for e in journal if e["ev"] == "cli_sig" and (name is None or e["name"] == name) and (c is None or e["c"] == c)]
+
+
+def relogin(sid="s2", resume="accept", sm=True, resumable=True, smid="smid-2", roster=True, c=0, h=None, mechs=("PLAIN",)):
+    """second and later connections of a client that had stream management: the client asks to resume.
+    resume: 'accept' (resumed with the server's real count unless h is given), 'fail' (then bind + enable again), 'none' (server no longer offers sm)"""
+    st = [dict(op="connect", c=c), A("stream:stream", c=c), S(hdr(sid) + features(f_mechs(mechs)), c=c),
+          A("auth", c=c), S("<success xmlns='%s'/>" % NS_SASL, restart=True, c=c),
+          A("stream:stream", c=c), S(hdr(sid + "b") + features(F_BIND, F_SM if resume != "none" else ""), c=c)]
+    if resume == "accept":
+        st += [A("resume", c=c), S("<resumed xmlns='%s' h='%s' previd='smid-1'/>" % (NS_SM, "$SMIN_PREV" if h is None else h), smOn=True, smResume=True, c=c)]
+        return st
+    if resume == "fail":
+        st += [A("resume", c=c), S("<failed xmlns='%s'><item-not-found xmlns='urn:ietf:params:xml:ns:xmpp-stanzas'/></failed>" % NS_SM, c=c)]
+    st += [A("iq", child="bind", c=c), S("<iq type='result' id='$ID'><bind xmlns='%s'><jid>%s</jid></bind></iq>" % (NS_BIND, JID), c=c)]
+    if sm and resume != "none":
+        st += [A("enable", c=c), S("<enabled xmlns='%s' id='%s'%s/>" % (NS_SM, smid, " resume='true'" if resumable else ""), smOn=True, c=c)]
+    if roster:
+        st += [A("iq", child="query", c=c), S("<iq type='result' id='$ID'><query xmlns='jabber:iq:roster'/></iq>", c=c)]
+    return st
